@@ -40,6 +40,10 @@ type World struct {
 	overflowFuncs  map[string]bool
 	allFuncs       map[*ssa.Function]bool
 	inlineBudget   int
+	implCache      map[string][]*ssa.Function
+	nfCache        map[string]*nfCand
+	coneAllIfaces  bool     // cone construction follows every in-repo interface (error-kind sweep)
+	errKind        *ErrKind // error-kind sweep in force
 	mutFields      map[string]bool
 	mutFieldsDone  bool
 	mu             sync.Mutex
@@ -466,6 +470,15 @@ func (w *World) ambientGhost(comp string) bool {
 // never stored to outside the construction of a fresh object (a local Alloc of the storing
 // function). Such fields keep their value across every call (havoc skips them).
 func (w *World) immutableFieldComp(comp string) bool {
+	for _, x := range w.ct.ImmutableExt {
+		if x == comp {
+			w.immutableFieldComp("F:" + modulePath + "/x.y") // run the store scan
+			w.mu.Lock()
+			r := !w.mutFields[comp]
+			w.mu.Unlock()
+			return r
+		}
+	}
 	if !strings.HasPrefix(comp, "F:"+modulePath) && !strings.HasPrefix(comp, "C:") && !strings.HasPrefix(comp, "E:"+modulePath) {
 		return false
 	}
@@ -542,6 +555,9 @@ func (w *World) immutableFieldComp(comp string) bool {
 						}
 						switch bt := a.X.Type().Underlying().(type) {
 						case *types.Slice:
+							if os.Getenv("GOVC_DEBUG_MUT") != "" {
+								fmt.Fprintf(os.Stderr, "mutable elements %s: store in %s at %s\n", typeKey(bt.Elem()), fn, w.fset.Position(st.Pos()))
+							}
 							w.mutFields["E:"+typeKey(bt.Elem())] = true
 						case *types.Pointer:
 							if at, ok := bt.Elem().Underlying().(*types.Array); ok {
@@ -979,46 +995,7 @@ func (w *World) coneContracts(roots []*ssa.Function, excluded func(string) bool,
 	var visit func(fn *ssa.Function, depth int)
 	ifaceImpls := map[string][]*ssa.Function{}
 	implsOf := func(it types.Type, m *types.Func) []*ssa.Function {
-		key := typeKey(it) + "." + m.Name()
-		if r, ok := ifaceImpls[key]; ok {
-			return r
-		}
-		var out []*ssa.Function
-		iface, ok := it.Underlying().(*types.Interface)
-		if ok {
-			for _, path := range sortedKeys(w.pkgByPath) {
-				if !strings.HasPrefix(path, modulePath) || excluded(path) {
-					continue
-				}
-				p := w.pkgByPath[path]
-				for _, name := range p.Scope().Names() {
-					tn, ok := p.Scope().Lookup(name).(*types.TypeName)
-					if !ok || tn.IsAlias() {
-						continue
-					}
-					named, ok := tn.Type().(*types.Named)
-					if !ok || named.TypeParams().Len() > 0 {
-						continue
-					}
-					if _, isIface := named.Underlying().(*types.Interface); isIface {
-						continue
-					}
-					for _, recv := range []types.Type{named, types.NewPointer(named)} {
-						if !types.Implements(recv, iface) {
-							continue
-						}
-						if sel := w.prog.MethodSets.MethodSet(recv).Lookup(m.Pkg(), m.Name()); sel != nil {
-							if fn := w.prog.MethodValue(sel); fn != nil && fn.Blocks != nil && fn.Synthetic == "" {
-								out = append(out, fn)
-							}
-						}
-						break
-					}
-				}
-			}
-		}
-		ifaceImpls[key] = out
-		return out
+		return w.implsOfIfaceEx(it, m, excluded, ifaceImpls)
 	}
 	visit = func(fn *ssa.Function, depth int) {
 		if fn == nil || seen[fn] || fn.Blocks == nil || depth > 12 {
@@ -1050,7 +1027,7 @@ func (w *World) coneContracts(roots []*ssa.Function, excluded func(string) bool,
 					it := cc.Value.Type()
 					if n, ok := it.(*types.Named); ok && n.Obj().Pkg() != nil {
 						ip := n.Obj().Pkg().Path()
-						if strings.HasPrefix(ip, modulePath+"/internal/rules") && !strings.HasSuffix(ip, "/internal/rules/rule") {
+						if (w.coneAllIfaces && strings.HasPrefix(ip, modulePath)) || (strings.HasPrefix(ip, modulePath+"/internal/rules") && !strings.HasSuffix(ip, "/internal/rules/rule")) {
 							for _, impl := range implsOf(it, cc.Method) {
 								visit(impl, depth+1)
 							}
@@ -1060,6 +1037,11 @@ func (w *World) coneContracts(roots []*ssa.Function, excluded func(string) bool,
 				}
 				if f, ok := cc.Value.(*ssa.Function); ok {
 					visit(f, depth+1)
+				} else if nt := inModuleNamedFunc(cc.Value.Type()); nt != nil && w.coneAllIfaces {
+					cands, _ := w.namedFuncCandidates(nt)
+					for _, f := range cands {
+						visit(f, depth+1)
+					}
 				}
 				for _, a := range cc.Args {
 					if f, ok := a.(*ssa.Function); ok {
@@ -1093,6 +1075,58 @@ func (w *World) coneContracts(roots []*ssa.Function, excluded func(string) bool,
 		out = append(out, c)
 	}
 	return out
+}
+
+// implsOfIfaceEx: the in-repo methods implementing interface method m of it (declared types only;
+// packages for which excluded holds are skipped).
+func (w *World) implsOfIfaceEx(it types.Type, m *types.Func, excluded func(string) bool, ifaceImpls map[string][]*ssa.Function) []*ssa.Function {
+	key := typeKey(it) + "." + m.Name()
+	if r, ok := ifaceImpls[key]; ok {
+		return r
+	}
+	var out []*ssa.Function
+	iface, ok := it.Underlying().(*types.Interface)
+	if ok {
+		for _, path := range sortedKeys(w.pkgByPath) {
+			if !strings.HasPrefix(path, modulePath) || excluded(path) {
+				continue
+			}
+			p := w.pkgByPath[path]
+			for _, name := range p.Scope().Names() {
+				tn, ok := p.Scope().Lookup(name).(*types.TypeName)
+				if !ok || tn.IsAlias() {
+					continue
+				}
+				named, ok := tn.Type().(*types.Named)
+				if !ok || named.TypeParams().Len() > 0 {
+					continue
+				}
+				if _, isIface := named.Underlying().(*types.Interface); isIface {
+					continue
+				}
+				for _, recv := range []types.Type{named, types.NewPointer(named)} {
+					if !types.Implements(recv, iface) {
+						continue
+					}
+					if sel := w.prog.MethodSets.MethodSet(recv).Lookup(m.Pkg(), m.Name()); sel != nil {
+						if fn := w.prog.MethodValue(sel); fn != nil && fn.Blocks != nil && fn.Synthetic == "" {
+							out = append(out, fn)
+						}
+					}
+					break
+				}
+			}
+		}
+	}
+	ifaceImpls[key] = out
+	return out
+}
+
+func (w *World) implsOfIface(it types.Type, m *types.Func) []*ssa.Function {
+	if w.implCache == nil {
+		w.implCache = map[string][]*ssa.Function{}
+	}
+	return w.implsOfIfaceEx(it, m, func(p string) bool { return strings.Contains(p, "/mocks") || strings.Contains(p, "/testsupport") }, w.implCache)
 }
 
 func (w *World) inRepoPkg(path string) bool { return strings.HasPrefix(path, modulePath) }
